@@ -86,6 +86,8 @@ class UpdateTaskState(Unit):
             "a starting report on a completed record appends a fresh record and leaves the completed one untouched"},
         "C13.uts.no_transition_on_retry": {"props": ["C13"], "text":
             "when the attempt is retried no transition is decided, nothing is staged for successors, the tally grows by exactly one and the task is re-staged ready with its retry settings"},
+        "C13.uts.retry_only_while_active": {"props": ["C13", "C04"], "text":
+            "an attempt reporting into a workflow that is no longer active (failed, paused, canceled ...) is never consumed as a retry: the task keeps its completed status and its transitions are evaluated"},
         "C13.uts.retry_only_on_completing_report": {"props": ["C13", "C18"], "text":
             "an attempt is retried only by the report that completes it: a late or duplicate report for a record that was already completed (transitions decided) never reopens it"},
         "C07.uts.ready_from_satisfied": {"props": ["C07"], "text":
@@ -480,6 +482,8 @@ class UpdateTaskState(Unit):
             else:
                 O("C13.uts.no_transition_on_retry", True)
 
+            O("C13.uts.retry_only_while_active", not (new_status == st.RETRYING and old_status != st.RETRYING
+                                                     and wf_status not in st.ACTIVE_STATUSES))
             O("C13.uts.retry_only_on_completing_report",
               not (new_status == st.RETRYING and old_status in st.COMPLETED_STATUSES and not fresh_record))
             # consumed on start
